@@ -182,6 +182,10 @@ TableAdmissible == Running => SplitNeverIncreases(C, N)
 PenaltyMonotoneInv ==
     (Running /\ t = 2 * M - 1) => \A b2 \in 0..MaxBeta : PenaltyMonotone(C, beta, b2, N, M)
 
+\* C12: reversing time (the table of the reversed series) leaves the optimal penalised cost unchanged
+ReverseTable(c) == [iv \in Iv |-> c[<<N - iv[2], N - iv[1]>>]]
+OptReversal == (Running /\ t = 2 * M - 1) => Opt(ReverseTable(C), beta, N, M) = Opt(C, beta, N, M)
+
 (* Normalisation lemma: adding a per-sample constant u[i] to every interval containing i     *)
 (* shifts every candidate of a prefix by the same amount, so the algorithm's decisions and    *)
 (* the optimal segmentations are unchanged; hence zero unit cost loses no generality.        *)
